@@ -1085,9 +1085,19 @@ def run_property(prop, cases, tier, seed, jobs=None, keep=False, group_size=10, 
                     vf.append(ex.submit(stage_verify, (bycid[d['cid']], d, keep)))
         for f in as_completed(vf):
             d = f.result(); results[d['cid']] = d
+        # alternative groups: cases that carry the same `alt_group` state the same clause set for the admissible
+        # floating-point evaluation orders of one formula (plain / fused multiply-add variants); the group holds when one
+        # member is proved, and only then are the other members' refutations disregarded (they are not run through replay)
+        alt_pass = {}; alt_open = {}
+        for cid, d in results.items():
+            g = getattr(bycid[cid], 'alt_group', None)
+            if g and not getattr(bycid[cid], 'control', False):
+                alt_pass[g] = alt_pass.get(g, False) or d['status'] == 'PASS'
+                alt_open[g] = alt_open.get(g, False) or d['status'] not in ('PASS', 'FAIL')     # a member the verifier did not decide
         # replay stage
         rp = []
         for cid, d in results.items():
+            if getattr(bycid[cid], 'alt_group', None) and (alt_pass.get(bycid[cid].alt_group) or alt_open.get(bycid[cid].alt_group)) and not getattr(bycid[cid], 'control', False): continue
             if d['status'] in ('FAIL', 'INAPPLICABLE') and not getattr(bycid[cid], 'control', False):
                 rp.append(ex.submit(stage_replay, (bycid[cid], d, seed)))
         for f in as_completed(rp):
@@ -1099,9 +1109,20 @@ def run_property(prop, cases, tier, seed, jobs=None, keep=False, group_size=10, 
     funcs = []; passed = 0; forms = {}; t_wasted = 0.0
     by_mode = {}
     control_report = []
+    alt_seen_fail = set(); alt_skipped = 0
     for cid in sorted(results, key=natural_key):
         d = results[cid]; c = bycid[cid]
         st = d['status']
+        g = getattr(c, 'alt_group', None)
+        if g and not getattr(c, 'control', False) and st != 'PASS':
+            if alt_pass.get(g): alt_skipped += 1; continue                 # another admissible evaluation order was proved
+            if st in ('FAIL', 'INAPPLICABLE'):
+                if alt_open.get(g):                                      # an undecided member could be the evaluation order the code uses
+                    if g not in alt_seen_fail: undecided.append((cid, 'alternative group undecided: no member proved, at least one member not decided (timeout)'))
+                    alt_seen_fail.add(g); alt_skipped += 1; continue
+                if g in alt_seen_fail: alt_skipped += 1; continue        # every member refuted: the first one reports the violation
+                alt_seen_fail.add(g)
+            elif alt_open.get(g) and g in alt_seen_fail: alt_skipped += 1; continue
         if getattr(c, 'control', False):
             ok = st in ('FAIL', 'INAPPLICABLE')
             control_report.append({'control': cid, 'refuted': ok, 'status': st, 'enforced_by': d.get('form_used'), 'failed': (d.get('failed_names') or [])[:2]})
@@ -1190,6 +1211,8 @@ def run_property(prop, cases, tier, seed, jobs=None, keep=False, group_size=10, 
             'functions_under_contract_total': len(funcs),
             'configurations': sorted({c.cfg.tag() for c in cases}),
             'extraction_drops': DROPPED,
+            'alternative_groups': {'groups': len(alt_pass), 'groups_with_a_proved_member': sum(1 for v in alt_pass.values() if v), 'members_disregarded': alt_skipped,
+                                   'note': 'members of a group state one formula under the admissible floating-point evaluation orders (plain, or one product fused into an FMA); a group holds when one member is proved'},
             'negative_controls': control_report,
             'negative_controls_note': 'copies of real cases with the first postcondition falsified; each must be refuted (under --dfcc and in assertion form); not counted as obligations',
             'samples': samples,
